@@ -112,13 +112,26 @@ def observe(spec):
 
             kv = pt_.dscalar("kv")
             k_logp_fn = pytensor.function([kv, p["P"], p["e"]], pm.logp(p["K"], kv), on_unused_input="ignore")
+        # the prior the MCMC model puts on P: the declared log-uniform density on [1 d, 20000 d] (in the prior's unit), nothing outside
+        p_logp = None
+        if "P" in rv_names:
+            import pytensor.tensor as pt_
+
+            pv = pt_.dscalar("pv")
+            p_logp_fn = pytensor.function([pv], pm.logp(p["P"], pv), on_unused_input="ignore")
+            Pu_ = prior_unit(prior, "P")
+            lo_, hi_ = (1 * u.day).to_value(Pu_), (20000 * u.day).to_value(Pu_)
+            p_logp = []
+            for x_ in (lo_ * 4.0, math.sqrt(lo_ * hi_), hi_ * 0.5, lo_ * (1 - 2.0**-10), hi_ * (1 + 2.0**-10), hi_ * 8.0, lo_ / 8.0):
+                inside = lo_ <= x_ <= hi_
+                p_logp.append((x_, float(p_logp_fn(np.float64(x_))), (-math.log(x_) - math.log(math.log(hi_ / lo_))) if inside else -math.inf))
     # which input row the initial point is
     P_init = float((np.asarray(init["P"]) * prior_unit(prior, "P")).to_value(u.day))
     # the input row the initial point was built from: periods may tie, so the row is identified by period AND eccentricity
     e_init = float(np.asarray(init["e"]))
     e_all = np.asarray(smp["e"].value, float)
     row = int(np.argmin(np.abs(Ps - P_init) / Ps + np.abs(e_all - e_init)))
-    obs = dict(init={k: float(v) for k, v in init.items()}, row=row, Ps=Ps.tolist(), points=[], prior=prior, smp=smp)
+    obs = dict(init={k: float(v) for k, v in init.items()}, row=row, Ps=Ps.tolist(), points=[], prior=prior, smp=smp, p_logp=p_logp)
     # two parameter points: the initial point, and a perturbed one; physical values in kernel units
     for which in ("init", "other"):
         phys = {}
@@ -164,6 +177,10 @@ def predicate(spec, obs, outs):
             errs.append(f"{pt['which']} point: the MCMC model's prior log-density of K is {pt['K_logp']!r}, the sampler's K prior "
                         f"Normal(0, min(sigma_K0 (P/P0)^(-1/3)/sqrt(1-e^2), max_K)) gives {pt['K_logp_expected']!r} "
                         f"[sigma_K0 {spec['sigma_K0']}, max_K {spec['max_K']} {spec.get('max_K_unit', 'km/s')}, P={pt['theta']['P']}, e={pt['theta']['e']}]")
+    for x_, got, want in obs.get("p_logp") or []:
+        if not (got == want if math.isinf(want) else abs(got - want) <= 1e-6 * max(1.0, abs(want))):
+            errs.append(f"the MCMC model's prior log-density of P at {x_!r} (prior unit) is {got!r}, the declared log-uniform prior on [1 d, 20000 d] gives {want!r}")
+            break
     m = len(obs["Ps"])
     Ps = np.array(obs["Ps"])
     Pi = Ps[obs["row"]]
